@@ -17,6 +17,10 @@ using Handler = std::function<std::string(const Tokens&)>;
 std::map<std::string, Handler>& registry();
 struct Register { Register(const char* name, Handler h) { registry()[name] = std::move(h); } };
 
+// allocation watch (defined next to the interposed operator new in ops_fault.cpp)
+void allocWatchReset();
+std::size_t allocWatchMax();
+
 struct BadOp : std::runtime_error { using std::runtime_error::runtime_error; };
 
 // ---- hex helpers (same syntax as BSVerif/Basic.lean) ----
